@@ -116,6 +116,9 @@ pub const MAX_SYSCALLS: u64 = 3_000_000;
 
 /// The I/O scheduler: the recorded fault plan applied to the calls an operation actually makes.
 pub struct IoSched {
+    /// no fault is injected and nothing is counted towards fault positions (a sibling case is being executed before
+    /// the case proper, see Exec::prelude)
+    pub quiet: bool,
     pub op: u32,
     pub faults: Vec<Fault>,
     pub fired: Vec<u32>,
@@ -139,6 +142,7 @@ impl IoSched {
     pub fn new(faults: Vec<Fault>, chunk_r: Chunk, chunk_w: Chunk) -> Self {
         let n = faults.len();
         IoSched {
+            quiet: false,
             op: 0,
             faults,
             fired: vec![0; n],
@@ -198,6 +202,9 @@ impl IoSched {
         self.n_calls += 1;
         if self.n_calls > MAX_SYSCALLS {
             self.overrun = true;
+        }
+        if self.quiet {
+            return Ok(want);
         }
         let ci = self.counter(role, dir);
         let (call_op, pos_op) = (self.counters[ci].calls, self.counters[ci].bytes);
@@ -311,6 +318,10 @@ impl IoSched {
     }
 
     pub fn done(&mut self, role: u16, dir: Dir, want: usize, got: i64) {
+        if self.quiet {
+            self.events.push(Ev { op: self.op, role, kind: dir_kind(dir), a: want as u64, b: got });
+            return;
+        }
         let ci = self.counter(role, dir);
         if got > 0 {
             self.counters[ci].bytes += got as u64;
@@ -323,6 +334,10 @@ impl IoSched {
 
     pub fn open_fault(&mut self, role: u16) -> Option<i32> {
         let op = self.op;
+        if self.quiet {
+            self.events.push(Ev { op, role, kind: b'o', a: 0, b: 0 });
+            return None;
+        }
         for i in 0..self.faults.len() {
             let f = &self.faults[i];
             if (f.op == op || f.op == ANY_OP) && f.dir == Dir::Open && role_matches(&self.roles[role as usize], &f.role) {
